@@ -19,6 +19,7 @@ import os
 from irsim import invariants, ops, snapshot
 from irsim.world import World
 from simcore import findings as _findings
+from simcore import knobs as _knobs
 from simcore.prng import Streams, digest
 
 logging.getLogger("onnx_ir").setLevel(logging.ERROR)
@@ -61,7 +62,7 @@ def gen_case(run_seed: int, tier: str, index: int = 0) -> dict:
         return {"property": PROPERTY, "run_seed": run_seed, "ops": ops.bootstrap_ops() + ops.gen_ops(r, n), "enumerate": True}
     n = r.choice([15, 20, 30, 40, 55, 70])
     # configuration knob of the library itself: onnx_ir.DEBUG turns on extra argument and invariance checks
-    return {"property": PROPERTY, "run_seed": run_seed, "ops": ops.bootstrap_ops() + ops.gen_ops(r, n), "debug": Streams(run_seed).rng("debug-knob").random() < 0.25}
+    return {"property": PROPERTY, "warnings_error": _knobs.warnings_knob(run_seed), "run_seed": run_seed, "ops": ops.bootstrap_ops() + ops.gen_ops(r, n), "debug": Streams(run_seed).rng("debug-knob").random() < 0.25}
 
 
 def enum_trials() -> list:
@@ -136,6 +137,11 @@ def run_history(op_list: list, *, want: str, known, stats: dict, skip: set, trac
 
 
 def run_case(case: dict) -> dict:
+    with _knobs.interpreter(case):
+        return _run_case(case)
+
+
+def _run_case(case: dict) -> dict:
     stats: dict = {}
     res = {"violation": None, "violations": [], "error": None, "stats": stats, "steps": 0, "distinct": [], "states": [], "case": case}
     known = _findings.load()
